@@ -302,6 +302,7 @@ func init() {
 			{Name: "C08_sequence", Witnesses: 1,
 				Quick:    grid([]string{"blocks"}, []int{13}),
 				Thorough: grid([]string{"blocks"}, []int{13, 16, 40})},
+			{Name: "C08_label_probe", Role: "known:for-label-before-counterless-inner-for", Witnesses: 1},
 			{Name: "C08_sequence_probe", Role: "known:for-pass-limit-12", Witnesses: 1,
 				Quick:    []Params{{"blocks": 13, "probe": 1}},
 				Thorough: []Params{{"blocks": 13, "probe": 1}}},
@@ -359,6 +360,15 @@ func init() {
 			{Name: "C09_assembler", Expect: []string{"end", "roundtrip-instruction"}, Witnesses: 4,
 				Quick:    append(grid([]string{"M", "legacy", "len", "op", "vary"}, []int{8000}, []int{0, 1}, []int{1}, []int{1, 0, 14}, []int{0}), grid([]string{"M", "legacy", "len", "op", "vary"}, []int{8000}, []int{0, 1}, []int{1, 2}, []int{1}, []int{1})...),
 				Thorough: append(grid([]string{"M", "legacy", "len", "op", "vary"}, []int{8, 8000, 8192}, []int{0, 1}, []int{1}, []int{0, 1, 2, 3, 7, 10, 11, 12, 13, 14, 15}, []int{0}), grid([]string{"M", "legacy", "len", "op", "vary"}, []int{8, 8000, 8192}, []int{0, 1}, []int{1, 2, 3}, []int{1, 14}, []int{1})...)},
+		},
+	})
+
+	Properties = append(Properties, &PropertySpec{
+		ID: "C17", UsesEvalModel: true,
+		Harnesses: []HarnessSpec{
+			{Name: "C17_main", WithCmd: true, Expect: []string{"end", "stdout-equals-tallies"}, Witnesses: 6,
+				Quick:    grid([]string{"warriors", "use88", "preset", "fixed", "maxRounds"}, []int{1, 2}, []int{0, 1}, []int{0}, []int{0, 9}, []int{2}),
+				Thorough: append(grid([]string{"warriors", "use88", "preset", "fixed", "maxRounds"}, []int{1, 2}, []int{0, 1}, []int{0}, []int{0, 8, 9, 11}, []int{3}), grid([]string{"warriors", "use88", "preset", "fixed", "maxRounds"}, []int{1, 2}, []int{0}, []int{1}, []int{0, 30}, []int{2})...)},
 		},
 	})
 }
